@@ -237,6 +237,7 @@ impl<'a, 'tcx> V<'a, 'tcx> {
                         let (k, fs) = fields_json(&v.data);
                         J::obj()
                             .set("name", v.ident.name.as_str())
+                            .set("raw_ident", v.ident.is_raw_guess())
                             .set("kind", k)
                             .set("fields", fs)
                             .set("attrs", attrs_json(&v.attrs))
